@@ -203,6 +203,14 @@ def _split_logical(content: str, rng, style: V3Style, kind: str, obs: dict):
         elif mode == "multi":
             k = rng.randint(2, min(5, len(content) - 1))
             cuts = sorted(rng.sample(range(1, len(content)), k))
+        elif mode == "kw":
+            # cut exactly at the blank in front of a key=value item (blank begins the continuation piece) or right after it (blank ends the first piece)
+            import re as _re
+            spots = [m.start() for m in _re.finditer(r" (?=(?:CHG|RAD|MASS|CFG|VAL|ENDPTS|ATTACH)=)", content)]
+            if spots:
+                k = rng.choice(spots)
+                cuts = [k if rng.random() < 0.6 else k + 1]
+                obs["split_before_keyword"] = obs.get("split_before_keyword", 0) + 1
         elif mode.startswith("at:"):
             cuts = [int(c) for c in mode[3:].split(",") if 0 < int(c) < len(content)]
     # mandatory cuts so that no physical line exceeds max_len
